@@ -5,6 +5,7 @@
    url_serializer leaves after a fresh parse of the serialization of u"), proved against Impl/Serializer.v. *)
 From Upa Require Import Base.Prelude Spec.Ip Spec.Url Impl.Repr Impl.Serializer.
 From Upa Require Import Proofs.ReprProofs Proofs.SerializerProofs Proofs.SerializerParse.
+From Upa Require Impl.TraceProto.
 From Coq Require Import ZifyBool ZifyN ZifyNat.
 Local Open Scope N_scope.
 
@@ -145,4 +146,17 @@ Proof.
     unfold f4, f3, f1, f0, flags_of, flags_bits, has_opaque_path, host_flags, ht.
     cbn [uhost port query fragment path is_some].
     destruct H; destruct po; destruct q; destruct fr; reflexivity.
+Qed.
+
+(* the sequence the extracted model prints for `parsetrace` (Impl/TraceProto.v) is the one of the theorem *)
+Lemma flat_map_push segs :
+  flat_map (fun x => [OStartPathSeg; OAppend x; OSavePathSeg]) segs = flat_map cops (map PPush segs).
+Proof. induction segs as [|x t IH]; [reflexivity|]. cbn [flat_map map cops app]. rewrite IH. reflexivity. Qed.
+
+Lemma emit_ops_m_eq u H segs :
+  Impl.TraceProto.emit_ops_m u H segs =
+  emit_ops (scheme u) (username u) (password u) (host_serialize H) (host_type_num H) (port u) segs (query u) (fragment u).
+Proof.
+  unfold Impl.TraceProto.emit_ops_m, emit_ops, auth_ops, Impl.TraceProto.opt_ops_m, opt_ops. rewrite flat_map_push.
+  rewrite <- !app_assoc. reflexivity.
 Qed.
